@@ -178,8 +178,31 @@ def run(ctx):
             ctx.bad('R3', role, b.defpath, '%s at %s depends on %s' % (what, e.get('span', '?').split('-')[0], sym.show(w)[:100]), key=key, loc=rules.loc(b, e.get('span')))
         else:
             ctx.ok('R3', role, b.defpath, '%d sink occurrence(s) over %d paths, none reached by a HIGH term' % (len(items), len(paths)), key=key)
-    if n_q == 0:
-        pass
+    # conservation: the compressed head is a bit buffer; a path may leave it alone or compute its new value from the old one,
+    # but a value that does not depend on the old head discards the left-over bits and shifts every later chunk.
+    key = 'R3/head-conserved/' + b.defpath
+    role = 'the new compressed head is a function of the old one (left-over bits are never discarded)'
+    dropped = []
+    n_upd = 0
+    def old_head(x):
+        if not (isinstance(x, tuple) and x):
+            return False
+        if x[0] == 'in' and x[1][:len(HEADS_C)] == HEADS_C:
+            return True
+        # the head as left by a helper whose frame (rule R1 above) excludes the compressed side
+        return x[0] == 'post' and x[2][:len(HEADS_C)] == HEADS_C and x[1] in high_calls
+    for w, e, r in sinks['head']:
+        n_upd += 1
+        if not sym.contains(e['value'], old_head):
+            dropped.append((e['value'], r))
+    if dropped:
+        v, r = dropped[0]
+        ctx.bad('R3', role, b.defpath, 'a path stores %s in heads.compressed, which does not depend on the previous head: bits left over from an earlier (smaller) precision are lost and all later chunks are cut from the wrong bits' % sym.show(v)[:120],
+                key=key, loc=rules.loc(b))
+    elif n_upd:
+        ctx.ok('R3', role, b.defpath, '%d updating path(s), each new head contains the old head as a sub-term' % n_upd, key=key)
+    else:
+        ctx.unresolved('R3', role, b.defpath, 'no path updates the head', key=key)
     # exhaustion is reported, never data: covered by C13; here: the OutOfCompressedData exit exists and is LOW-controlled
     key = 'R3/ni/exhaustion/' + b.defpath
     if sinks['exhaust']:
@@ -195,6 +218,6 @@ def meta():
         'explanation': 'Path-sensitive non-interference check over the value graph of ChainCoder::decode_symbol and the frames of its `&mut self` helpers: no term derived from the model, the model\'s results, the '
                        'remainders head or the remainders backend reaches the quantile, the compressed head, the compressed backend or a decision that precedes them. Sound over-approximation: if no HIGH '
                        'label reaches a LOW sink on any path, no execution can transmit it; by induction over calls the LOW post-state depends only on the LOW pre-state. Level is downgraded to `other` '
-                       'automatically if any obligation is unresolved or refuted.',
+                       'automatically if any obligation is unresolved or refuted. In addition (necessary condition of the chunk clause, not part of the proof): every new value of the compressed head depends on the old one.',
         'trusted_base': ['rustc type checker + MIR construction', 'cfacts extractor', 'Rust aliasing rules (a callee mutates only what it gets by &mut)', 'path enumeration covers all acyclic paths; decode_symbol has no loops'],
     }
